@@ -384,7 +384,18 @@ func (x *Exec) stmt(s ast.Stmt, st *State, cs []*ctl) []*State {
 		}
 		x.fail(s.Pos(), "outside subset: %T", s)
 		return nil
-	case *ast.SelectStmt, *ast.SendStmt:
+	case *ast.SendStmt:
+		if x.coarse {
+			// coarse units: the operands are evaluated, the send itself is not
+			// modelled (channels carry no facts; blocking is not considered)
+			x.expr(s.Chan, st)
+			x.expr(s.Value, st)
+			x.abstr["channel send "+x.src(s)+": not modelled"] = true
+			return []*State{st}
+		}
+		x.fail(s.Pos(), "outside subset: %T", s)
+		return nil
+	case *ast.SelectStmt:
 		x.fail(s.Pos(), "outside subset: %T", s)
 		return nil
 	case *ast.TypeSwitchStmt:
